@@ -3,7 +3,8 @@ LEVEL = "other"
 CONTRACT_MODULES = ["contracts.optimize", "contracts.matrixutils"]
 FUNCTIONS = ["SVD.lstsq", "MeritFuctionView._scaled_to_native", "MeritFuctionView._scaled_from_native", "MeritFunctionForMatch._x_to_knobs",
              "MeritFunctionForMatch._knobs_to_x", "MeritFunctionForMatch.get_jacobian@finite-difference-block",
-             "MeritFuctionView.get_jacobian@chain-rule-factor"]
+             "MeritFuctionView.get_jacobian@chain-rule-factor", "MeritFuctionView._check_for_scalability@reads-only",
+             "MeritFunctionForMatch._get_x_limits@proved"]
 # the caller of SVD.lstsq: the Newton step is lstsq(y[mask_output], rcond=<step's rcond>, sing_val_cutoff=<step's cutoff>) of the masked Jacobian (proved under C10's configuration)
 BORROW = [("C10", ["JacobianSolver.step@newton-step-block"])]
 RAC = "rac/c16.py"
@@ -14,6 +15,6 @@ TECHNIQUE = 'contract-based deductive verification (pyvc pointwise engine: SVD.l
 TRUSTED = ["floats are treated as reals (DESIGN 2.3(1)); every 'up to rounding' clause is run-time only", 'numpy-lite model of pyvc/num_engine.py (vectors as length + array, in-place scaling as a scalar factor, np.abs/argmin/all, zip/enumerate/range) and, for element-wise numpy code, the pointwise abstraction of pyvc/pointwise_engine.py', 'numpy / LAPACK / scipy themselves', 'z3 (NRA/LRA + quantifiers), cvc5']
 ASSUMPTIONS = ['finite-difference block: the merit function is a deterministic map of the evaluation point (uninterpreted); finite-difference steps non-zero, weights positive', 'bounds[:,1] != bounds[:,0] and rescale_x[1] != rescale_x[0] (not enforced by _check_for_scalability)']
 BOUNDED = ["that the pseudo-inverse term is the minimum-norm least-squares solution (linear algebra, trusted), one-step convergence on well-conditioned linear problems, agreement of view Jacobians with finite differences, all 'up to rounding' clauses: run-time only"]
-EXPLANATION = 'proved: the factor by which the rescaled view multiplies the columns of the native Jacobian is (upper - lower) / (rescale_x[1] - rescale_x[0]) from the current bounds, for every normalised interval (through the proved _scaled_to_native); in MeritFunctionForMatch.get_jacobian every active column is the forward difference (merit(x + h e_j) - f0) / h with ONE h = step_j / weight_j (optimizer units) for the increment and the divisor, and the evaluation point is put back after every column; SVD.lstsq returns Vh[:c].T @ diag(s+) @ U[:,:c].T @ b with s+[i] = 1/s[i] iff i < cutoff, s[i] > 0 and not s[i] < rcond*s[0] (relative threshold), else 0; _scaled_to_native/_scaled_from_native are the affine maps between the normalised interval and the native bounds, inverse to each other in both directions, with chain-rule factor (hi-lo)/(s1-s0); _x_to_knobs/_knobs_to_x are inverse for positive weights'
+EXPLANATION = 'proved: the factor by which the rescaled view multiplies the columns of the native Jacobian is (upper - lower) / (rescale_x[1] - rescale_x[0]) from the current bounds, for every normalised interval (through the proved _scaled_to_native); in MeritFunctionForMatch.get_jacobian every active column is the forward difference (merit(x + h e_j) - f0) / h with ONE h = step_j / weight_j (optimizer units) for the increment and the divisor, and the evaluation point is put back after every column; SVD.lstsq returns Vh[:c].T @ diag(s+) @ U[:,:c].T @ b with s+[i] = 1/s[i] iff i < cutoff, s[i] > 0 and not s[i] < rcond*s[0] (relative threshold), else 0; _scaled_to_native/_scaled_from_native are the affine maps between the normalised interval and the native bounds, inverse to each other in both directions, with chain-rule factor (hi-lo)/(s1-s0); _x_to_knobs/_knobs_to_x are inverse for positive weights; _get_x_limits is the knob limits divided by the weights (the bounds the rescaled views interpolate between); _check_for_scalability only reads the view'
 LEVEL_TEXT = "Mixed: the functions and blocks listed under `functions` are proved (every obligation discharged from the real source on every run); the clauses listed under `bounded` are run-time contract checks on generated problems. Never claimed as proof."
 LEVEL_NOTE = "See TRUSTED / BOUNDED / ASSUMPTIONS in the evidence file."
